@@ -5,6 +5,7 @@ configuration; Gen.next() looks at the current world/ledger so that choices are
 relevant (acks for packets that exist, faults while something is in flight)
 and returns the next JSON step.  The explicit step list is what gets replayed;
 the generator is never needed for replay."""
+import os
 import random
 
 from sim import refcodec as rc
@@ -49,7 +50,9 @@ def make_config(rng, family):
     if family == "ids" or rng.random() < 0.08:
         cfg["start_id"] = rng.choice([65530, 65531, 65532, 65533, 65534, 65535, 65529, 65500])
     cfg["two_addr"] = rng.random() < 0.1
-    n = _w(rng, [((5, 25), 5), ((20, 60), 4), ((60, 200), 2), ((200, 600), 0.4)])
+    deep = bool(os.environ.get("VERIF_DEEP"))        # thorough tier: more long histories
+    n = _w(rng, [((5, 25), 5), ((20, 60), 4), ((60, 200), 2 if not deep else 3), ((200, 600), 0.4 if not deep else 1.5),
+                 ((600, 2000), 0.0 if not deep else 0.4)])
     cfg["length"] = rng.randint(*n)
     cfg["window"] = _w(rng, [(1, 3), (2, 2), (3, 2), (rng.randint(1, 16), 2), (16, 1)])
     cfg["window_changes"] = rng.random() < (0.6 if family in ("window", "subreq") else 0.25)
